@@ -1,5 +1,6 @@
 Require Import ZArith List. Require Extraction. Require Import ExtrOcamlBasic.
 Require Import IW.Gen.Facts IW.UT.Hmap IW.UT.Ulist IW.UT.Sarr IW.UT.Rb IW.UT.Xstr IW.UT.Avl IW.UT.Pool IW.UT.Plist IW.UT.Pforest IW.UT.AvlWalk IW.UT.PoolStr.
+Require Import IW.UT.Hmap_af.
 Extraction "m.ml" Z.add Z.mul Z.sub Z.div_eucl Z.compare Z.of_nat Z.to_nat Z.opp Z.eqb Z.ltb
   hash_u32 hash_u64 hash_str hash_ptr CONT_hmap_u32_ikp CONT_hmap_u64_ikp CONT_hmap_str_ikp
   hnew hput hget_val hremove hrename hclear hdestroy hiter hlru hshape clear_log h_count h_log h_fault
@@ -13,4 +14,5 @@ Extraction "m.ml" Z.add Z.mul Z.sub Z.div_eucl Z.compare Z.of_nat Z.to_nat Z.opp
   p_create p_create_empty p_alloc p_strndup p_cstrarr split_string p_split
   f_empty f_create f_attach f_ref f_destroy f_ud_set f_ud_get f_ud_detach f_alloc f_drain get live
   pl_init pl_at pl_items pl_clone pl_push pl_pop pl_unshift pl_shift pl_insert pl_set pl_remove pl_sort slot_bytes
-  hcreate hlruinit hevmax iter_init iter_next iter_run hiter_steps it_bucket it_entry it_fault.
+  hcreate hlruinit hevmax iter_init iter_next iter_run hiter_steps it_bucket it_entry it_fault
+  hcreate_f hput_f hput_str_f hget_f hremove_f hrename_f hclear_f hdestroy_f with_m a_m a_hist a_dang a_leak a_lost.
